@@ -160,11 +160,12 @@ fn format_function(
     output: &mut String,
     context: &mut FormatContext,
 ) -> Result<(), FormatError> {
+    // The template parameters are read before the attributes of the function
+    format_template_param_list(&def.template_params, output, context)?;
+
     for attribute in &def.attributes {
         format_attribute(attribute, true, false, output, context)?;
     }
-
-    format_template_param_list(&def.template_params, output, context)?;
 
     format_type(&def.returntype.return_type, output, context)?;
     output.push(' ');
